@@ -132,7 +132,10 @@ def _mk(p, T, tseed, quoted, sf):
 
 
 IDEM_CORPUS = [
-    "http://a.com\xa0/", "http://A1 /", "http://a.com\u2028?", "custom:///p", "zz://?q", "http:///p", "http://@/p",
+    # FX-C02-TRAILINGWS (formerly KF-C02-2), FX-C02-EMPTYAUTH (KF-C02-3), FX-C01-IPBRACKETS, FX-C01-USERBRACKETS
+    "http://a.com\xa0/", "http://A1 /", "http://a.com\u2028?", "http://a.com\u3000:80/", "https://u@a.com\xa0:443?#",
+    "http://[v1.x\xa0]/", "custom:///p", "zz://?q", "custom://", "http://[v1.[]/", "http://x[v1.[]/", "http://[V1.x]/",
+    "http://u[::1%7A]@a.com/", "http:///p", "http://@/p",
     "http://a%ABb.com/", "http://[::1%7A]:80/", "http://u:p@a.com:80/a/../b%2Fc/?k=%26#f%20", "svn+ssh://a.com/p",
 ]
 CORPUS = [
@@ -154,7 +157,7 @@ def cases(rng, tier):
     for u in IDEM_CORPUS:
         for quoted, sf in OPTS:
             yield dict(_mk({"raw": u}, [], 0, quoted, sf), idem=True)
-    tort = [u for u in urlrt.torture(random.Random(rng.randrange(1 << 30)), "quick") if "[" not in u and "]" not in u]
+    tort = list(urlrt.torture(random.Random(rng.randrange(1 << 30)), "quick"))
     step = 1 if tier == "thorough" else 4
     for i, u in enumerate(tort[::step]):
         quoted, sf = OPTS[i % 4]
@@ -211,7 +214,7 @@ def impl(case):
 
 def _parses(u):
     try:
-        return cc.parse(cc.clean_impl(u, "https")) is not None
+        return cc.parse_canon(cc.clean_impl(u, "https")) is not None
     except Exception:  # noqa
         return False
 
@@ -274,38 +277,6 @@ def kf_mode_roundtrip_raw_delim(case, failure):
             if "=" in item and "=" in item.split("=", 1)[1]:
                 return True
     return False
-
-
-def _first_output(case):
-    from ural import canonicalize_url as canon
-
-    v = variant(case)
-    if v is None:
-        return None
-    try:
-        return canon(v[0], quoted=case["quoted"], strip_fragment=case["strip_fragment"])
-    except Exception:  # noqa
-        return None
-
-
-def kf_result_ends_with_space(case, failure):
-    """KF-C02-2: the printed result ends with a white-space character (a host ending with a
-    space / no-break space / line separator and nothing printed after it, e.g.
-    'http://a.com\xa0/' -> 'http://a.com\xa0'): the second call strips it as surrounding
-    white space.  Outside canonicalize_idempotent_partial by its hypothesis `hlast`."""
-    c = _first_output(case)
-    return "not idempotent" in failure and c is not None and c[-1:].isspace()
-
-
-def kf_no_authority_printed(case, failure):
-    """KF-C02-3: an unknown scheme with an empty authority ('custom:///p', 'zz://?q'):
-    urlunsplit prints 'custom:/p' without '//', which the second call no longer recognises
-    as having a protocol ('https://custom/p').  Outside canonicalize_idempotent_partial by its
-    hypothesis `hnl`."""
-    import re
-
-    c = _first_output(case)
-    return "not idempotent" in failure and c is not None and re.match(r"^[a-zA-Z][a-zA-Z0-9+.-]*:(?!//)", c) is not None
 
 
 def nontrivial(case):
